@@ -278,7 +278,8 @@ def rule_gj(chk):
     bi = P(best.slice, env)
     ok_search = ci == width * Poly.var(rv) + pvP and bi == width * Poly.var(big) + pvP
     seed_ok = seed == pvP
-    rng_ok = lo.subs(env) == pvP + Poly.const(1) and hi == Poly.var('n')
+    # (a scan that starts at the pivot row itself compares the seed with itself first: the same search)
+    rng_ok = (lo.subs(env) == pvP + Poly.const(1) or lo.subs(env) == pvP) and hi == Poly.var('n')
     chk.decide(ok_search, 'gj-pivot-drives-row-exchange', 'search-compares-pivot-column', node=sif, file=LA, func='gj_solve',
                detail_bad='search compares %s with %s, expected |m[row, col]| > |m[big, col]| in the pivot column' % (U(cand), U(best)),
                detail_ok='|m[row,col]| > |m[big,col]|')
@@ -328,7 +329,8 @@ def rule_gj(chk):
     if isinstance(holder, ast.If):
         tst = U(holder.test).replace(' ', '')
         piv = [pv] + [k_ for k_, v_ in env.items() if v_ == Poly.var(pv)]       # the pivot index, under the loop variable or a copy of it
-        okg = tst in ('%s!=%s' % (big, x) for x in piv) or tst in ('%s!=%s' % (x, big) for x in piv)
+        # the search result is never above the pivot row, so `big != col`, `big > col` and `col < big` skip the same exchanges; `>=` exchanges a row with itself
+        okg = any(tst in ('%s!=%s' % (big, x), '%s!=%s' % (x, big), '%s>%s' % (big, x), '%s<%s' % (x, big), '%s>=%s' % (big, x), '%s<=%s' % (x, big)) for x in piv)
         chk.decide(okg, 'gj-pivot-drives-row-exchange', 'exchange-guard', node=holder, file=LA, func='gj_solve',
                    detail_bad='row exchange is skipped under condition %s' % U(holder.test), detail_ok='skipped only when no better row was found')
     # --- elimination row operation over the full augmented width
@@ -745,6 +747,292 @@ def rule_eigen_wrapper(chk):
                detail_ok='d[i] = 0, V[i][j] = (i == j)')
 
 
+def rule_row_operations(chk):
+    """every store into the augmented matrix is an elementary row operation of Gauss-Jordan elimination, decided as a polynomial identity over the entries M[r, c] (flat
+    index nt*r + c split into row and column, scalars such as cc / kk / dnr substituted, denominators cleared):
+      * a copy of another entry (the row exchange; judged by the pivoting rules),
+      * M[R, C] <- M[R, C] - M[R, P]/M[P, P] * M[P, C]  (row R minus the multiple of the pivot row P that clears column P), or
+      * M[P, C] <- M[P, C] / M[P, P]  (the pivot row scaled to a unit pivot);
+    the column C runs over the whole row or from the pivot column to the last column, the rows R over those below (forward sweep) or above (back substitution) the pivot, and
+    where the multiplier is re-read from the matrix inside the column loop the pivot column is visited last (the statement overwrites what the multiplier is computed from)"""
+    t = M.py(LA)
+    fn = normalise_gj(M.find_func(t, 'gj_solve'))
+    params = M.arg_names(fn)
+    if len(params) < 3:
+        raise AnalysisError('gj_solve: parameters vanished')
+    n_, nb_ = Poly.var(params[1]), Poly.var(params[2])
+    env = {}        # integer names -> Poly in the parameters and loop variables (nt stays a symbol: it is what splits a flat index into row and column)
+    scal = {}       # scalar names -> ((num, den), loops enclosing the definition)
+    stores = []
+
+    class Skip(Exception):
+        pass
+
+    def atom(arr, R, C):
+        return Poly.var('%s<%s|%s>' % (arr, R, C))
+
+    def rc(idx):
+        p_ = from_ast(idx, env)
+        if p_ is None:
+            raise Skip('index %s' % U(idx))
+        sp = p_.coeff_of('nt')
+        if sp is None:
+            raise Skip('index %s' % U(idx))
+        R, C = sp
+        if 'nt' in R.atoms() or 'nt' in C.atoms():
+            raise Skip('index %s' % U(idx))
+        return R, C
+
+    def rat(e):
+        if isinstance(e, ast.Constant) and isinstance(e.value, (int, float)) and not isinstance(e.value, bool):
+            return from_ast(e), Poly.const(1)
+        if isinstance(e, ast.Name):
+            if e.id in scal:
+                return scal[e.id][0]
+            if e.id in env:
+                return env[e.id], Poly.const(1)
+            return Poly.var(e.id), Poly.const(1)
+        if isinstance(e, ast.Subscript) and isinstance(e.value, ast.Name):
+            if e.value.id == params[0]:
+                R, C = rc(e.slice)
+                return atom('M', R, C), Poly.const(1)
+            p_ = from_ast(e.slice, env)
+            if p_ is None:
+                raise Skip('index %s' % U(e))
+            return Poly.var('%s<%s>' % (e.value.id, p_)), Poly.const(1)
+        if isinstance(e, ast.UnaryOp) and isinstance(e.op, ast.USub):
+            a, b = rat(e.operand)
+            return -a, b
+        if isinstance(e, ast.Call) and M.call_name(e) == 'float' and len(e.args) == 1:
+            return rat(e.args[0])
+        if isinstance(e, ast.BinOp) and isinstance(e.op, (ast.Add, ast.Sub, ast.Mult, ast.Div)):
+            (a, b), (c, d) = rat(e.left), rat(e.right)
+            if isinstance(e.op, ast.Add):
+                return a * d + c * b, b * d
+            if isinstance(e.op, ast.Sub):
+                return a * d - c * b, b * d
+            if isinstance(e.op, ast.Mult):
+                return a * c, b * d
+            return a * d, b * c
+        raise Skip('expression %s' % U(e)[:40])
+
+    def walk(stmts, stack):
+        for st in stmts:
+            if isinstance(st, ast.For) and isinstance(st.target, ast.Name) and isinstance(st.iter, ast.Call) and U(st.iter.func) in ('range', 'prange'):
+                a_ = [from_ast(x, env) for x in st.iter.args]
+                if any(x is None for x in a_) or len(a_) not in (1, 2):
+                    raise AnalysisError('gj_solve: loop %s not understood' % U(st.iter))
+                lo, hi = (Poly.const(0), a_[0]) if len(a_) == 1 else (a_[0], a_[1])
+                env.pop(st.target.id, None)
+                walk(st.body, stack + [(st.target.id, lo, hi, st)])
+            elif isinstance(st, (ast.If,)):
+                walk(st.body, stack)
+                walk(st.orelse, stack)
+            elif isinstance(st, ast.Assign) and len(st.targets) == 1:
+                tg = st.targets[0]
+                if isinstance(st.value, ast.Call) and M.call_name(st.value) == 'declare':
+                    continue
+                if isinstance(tg, ast.Name):
+                    p_ = from_ast(st.value, env) if tg.id != 'nt' else None
+                    names_ = set(x.id for x in ast.walk(st.value) if isinstance(x, ast.Name))
+                    if p_ is not None and not any(isinstance(x, (ast.Subscript, ast.Call)) for x in ast.walk(st.value)) and not (names_ & set(scal)) and \
+                            not any(isinstance(x, ast.Constant) and isinstance(x.value, float) for x in ast.walk(st.value)):
+                        env[tg.id] = p_
+                        scal.pop(tg.id, None)
+                    else:
+                        try:
+                            scal[tg.id] = (rat(st.value), [l_[3] for l_ in stack])
+                        except Skip:
+                            scal.pop(tg.id, None)
+                        env.pop(tg.id, None)
+                elif isinstance(tg, ast.Subscript) and isinstance(tg.value, ast.Name) and tg.value.id == params[0]:
+                    try:
+                        R, C = rc(tg.slice)
+                        used = set(x.id for x in ast.walk(st.value) if isinstance(x, ast.Name) and x.id in scal)
+                        stores.append((R, C, rat(st.value), list(stack), st, dict((u_, scal[u_][1]) for u_ in used)))
+                    except Skip as ex:
+                        stores.append((None, None, str(ex), list(stack), st, {}))
+
+    walk(M.docstring_stripped(fn.body), [])
+    n_ops = 0
+    last_col = n_ + nb_ - Poly.const(1)
+
+    def ends(expr, stack):
+        """(loop entry, value of expr in the first pass, in the last pass) for the innermost loop whose variable expr depends on"""
+        for var, lo, hi, node in reversed(stack):
+            if var in expr.atoms():
+                return (var, lo, hi, node), expr.subs({var: lo}), expr.subs({var: hi - Poly.const(1)})
+        return None, expr, expr
+
+    scaled_rows = set()
+    op_stores = set()
+    for R, C, val, stack, st, used in stores:
+        who = 'gj_solve@%d' % st.lineno
+        if R is None:
+            chk.violated('gj-row-operations', who, node=st, file=LA, func='gj_solve', detail='store into the matrix not understood (%s)' % val)
+            continue
+        num, den = val
+        if den == Poly.const(1) and len(num.t) == 1 and list(num.t.values())[0] == 1 and len(list(num.t)[0]) == 1 and list(num.t)[0][0][1] == 1 and list(num.t)[0][0][0].startswith('M<'):
+            continue            # a plain copy of another entry: the row exchange
+        n_ops += 1
+        op_stores.add(id(st))
+        rows = set()
+        for a_ in (num.atoms() | den.atoms()):
+            if a_.startswith('M<'):
+                rows.add(a_[2:].split('|')[0])
+        others = sorted(r_ for r_ in rows if r_ != str(R))
+        here = atom('M', R, C)
+        bad = None
+        if not others:
+            # the pivot row scaled: M[P, C] / M[P, P]
+            P = R
+            piv = atom('M', P, P)
+            if not (num * piv - den * here).is_zero():
+                bad = 'the value stored is not M[r, c]/M[r, r]'
+            else:
+                scaled_rows.add(str(P))
+            in_loop = True
+        elif len(others) == 1:
+            # find the pivot row as a polynomial: the row of an atom that is not R
+            P = None
+            # the pivot row as a polynomial: re-derived by parsing the reads of the statement (and of the scalars it uses)
+            cand = []
+            srcs = [st.value] + [a2.value for a2 in ast.walk(fn) if isinstance(a2, ast.Assign) and isinstance(a2.targets[0], ast.Name) and a2.targets[0].id in used]
+            for e_ in srcs:
+                for x in ast.walk(e_):
+                    if isinstance(x, ast.Subscript) and isinstance(x.value, ast.Name) and x.value.id == params[0]:
+                        try:
+                            R2, C2 = rc(x.slice)
+                        except Skip:
+                            continue
+                        if str(R2) == others[0]:
+                            cand.append(R2)
+            P = cand[0] if cand else None
+            if P is None:
+                bad = 'pivot row not identified'
+            else:
+                piv = atom('M', P, P)
+                want_num = here * piv - atom('M', R, P) * atom('M', P, C)
+                exact = (num * piv - den * want_num).is_zero()
+                if not exact and str(P) in scaled_rows:
+                    # the pivot row has been scaled to a unit pivot earlier in the same pass: M[p, p] is 1 here, a multiplier that leaves the division out (or writes it as a
+                    # product) is the same number
+                    one = {str(piv.atoms().pop()): Poly.const(1)}
+                    exact = (num.subs(one) - den.subs(one) * (here - atom('M', R, P) * atom('M', P, C))).is_zero()
+                if not exact:
+                    bad = 'the value stored is not M[r, c] - M[r, p]/M[p, p]*M[p, c] for the pivot row p = %s' % P
+            in_loop = any(any(l_ is lp_ for l_ in defstack) for defstack in used.values() for lp_ in [ends(C, stack)[0][3]] if ends(C, stack)[0] is not None) or not used
+        else:
+            P = None
+            bad = 'the value stored mixes the rows %s: not an elementary row operation' % sorted(rows)
+        if bad is None:
+            cl, c0, c1 = ends(C, stack)
+            okc = cl is not None and ((c1 == last_col and (c0.is_zero() or c0 == P)) or (c0 == last_col and (c1.is_zero() or c1 == P)))
+            if not okc:
+                bad = 'the column index %s runs from %s to %s: the operation must reach every column from the pivot column (or the first) to the last, n + nb - 1' % (C, c0, c1)
+            elif in_loop and not (c1 == P):
+                bad = 'the multiplier is read from the matrix inside the loop over the columns, which overwrites it at the pivot column: that column (%s) must be the last one visited, ' \
+                      'the loop ends at column %s' % (P, c1)
+        if bad is None and others:
+            rl, r0, r1 = ends(R, stack)
+            below = (r0 == P + Poly.const(1) and r1 == n_ - Poly.const(1)) or (r1 == P + Poly.const(1) and r0 == n_ - Poly.const(1))
+            above = (r0.is_zero() and r1 == P - Poly.const(1)) or (r1.is_zero() and r0 == P - Poly.const(1))
+            if rl is None or not (below or above):
+                bad = 'the rows %s cleared against the pivot row %s run from %s to %s: all rows below the pivot (forward sweep) or all rows above it (back substitution)' % (R, P, r0, r1)
+        if bad is None:
+            pl, p0, p1 = ends(P, stack)
+            full = (p0.is_zero() and p1 == n_ - Poly.const(1)) or (p1.is_zero() and p0 == n_ - Poly.const(1))
+            if pl is None or not full:
+                bad = 'the pivot row %s runs from %s to %s, not over all n rows' % (P, p0, p1)
+        chk.decide(bad is None, 'gj-row-operations', who, node=st, file=LA, func='gj_solve',
+                   detail_bad='`%s`: %s - the transformed system no longer has the solution of the given one' % (U(st)[:70], bad),
+                   detail_ok='%s row %s, columns to n + nb - 1' % ('scales pivot' if not others else 'clears column of pivot row %s in' % P, R))
+    chk.floor('row operations in gj_solve', n_ops, 3)
+    # the tests that report a singular system: a test on a pivot (a diagonal entry) fires at 0 and not at 1e-9 or 1 - small pivots of badly scaled regular systems are
+    # divided by; a test on a right-hand-side entry (last column, under a zero pivot) fires for 1 and 1e-6 and not for 0 - 0 x = 0 is consistent.  Decided by evaluating
+    # the test, its locals written out, at these values of the one matrix entry it reads
+    from verif_static.norm import local_defs as ld_, inline as inl_
+    # (integer temporaries - nt, augCol, rb ... - stay names: the flat index is split into row and column with them)
+    defs_ = dict((k_, v_) for k_, v_ in ld_([fn]).items() if k_ != 'nt' and k_ not in env and (any(isinstance(x, (ast.Subscript, ast.Call)) for x in ast.walk(v_)) or
+                                                                                             (isinstance(v_, ast.Constant) and isinstance(v_.value, (int, float)) and not isinstance(v_.value, bool) and k_ not in M.arg_names(fn))))
+    n_t = 0
+    for r_ in [x for x in ast.walk(fn) if isinstance(x, ast.Return) and x.value is not None and U(x.value) in ('1.0', '1')]:
+        g_ = M.enclosing(r_, (ast.If,))
+        if g_ is None or not any(x is r_ for b_ in g_.body for x in ast.walk(b_)):
+            continue
+        test = inl_(g_.test, defs_)
+        subs_ = [x for x in ast.walk(test) if isinstance(x, ast.Subscript) and isinstance(x.value, ast.Name) and x.value.id == params[0]]
+        keys = sorted(set(U(x) for x in subs_))
+        who = 'gj_solve@%d' % g_.lineno
+        if len(keys) != 1:
+            chk.violated('gj-singularity-tests', who, node=g_, file=LA, func='gj_solve', detail='the test `%s` reads %d matrix entries (expected the pivot or one right-hand-side entry)' % (U(g_.test), len(keys)))
+            continue
+        try:
+            R, C = rc(subs_[0].slice)
+        except Skip as ex:
+            chk.violated('gj-singularity-tests', who, node=g_, file=LA, func='gj_solve', detail='entry tested not understood: %s' % ex)
+            continue
+
+        class Sub(ast.NodeTransformer):
+            def visit_Subscript(self, n):
+                if isinstance(n.value, ast.Name) and n.value.id == params[0]:
+                    return ast.copy_location(ast.Name(id='X__', ctx=ast.Load()), n)
+                return self.generic_visit(n)
+        code = compile(ast.fix_missing_locations(ast.Expression(body=Sub().visit(ast.parse(U(test), mode='eval').body))), '<test>', 'eval')
+
+        def at(v):
+            return bool(eval(code, {'__builtins__': {}, 'abs': abs, 'float': float, 'fabs': abs}, {'X__': v}))
+        n_t += 1
+        try:
+            if R == C:
+                ok = at(0.0) and not at(1e-9) and not at(-1e-9) and not at(1.0) and not at(-1.0)
+                why = 'a pivot test must fire for 0 and not for +-1e-9 or +-1'
+            elif C == last_col:
+                ok = at(1.0) and at(-1.0) and at(1e-6) and not at(0.0)
+                why = 'a right-hand-side test must fire for +-1 and 1e-6 and not for 0'
+            else:
+                ok, why = False, 'the entry tested, M[%s, %s], is neither a pivot nor in the last column' % (R, C)
+        except Exception as ex:          # noqa
+            ok, why = False, 'test not evaluable: %s' % ex
+        chk.decide(ok, 'gj-singularity-tests', who, node=g_, file=LA, func='gj_solve',
+                   detail_bad='`%s` (with its locals written out: `%s`): %s - regular systems are reported singular or singular ones solved' % (U(g_.test), U(test)[:80], why),
+                   detail_ok='fires exactly for a vanishing pivot / a non-zero right-hand side')
+    chk.floor('singularity tests in gj_solve', n_t, 2)
+    # a test on the indices alone that stands around a row operation must not keep any pivot out: it holds (with the polarity of the branch the operation sits in) for the
+    # second and the third pivot row (the first has no rows above it, the loops over those rows are empty there anyway)
+    for R, C, val, stack, st, used in stores:
+        if R is None or id(st) not in op_stores:
+            continue
+        cur, ok_g, why_g = st, True, ''
+        while getattr(cur, 'parent', None) is not None and cur.parent is not fn:
+            par = cur.parent
+            if isinstance(par, ast.If):
+                names_ = set(x.id for x in ast.walk(par.test) if isinstance(x, ast.Name))
+                if names_ and names_ <= set(env) | set(v_[0] for v_ in stack) and not any(isinstance(x, (ast.Subscript, ast.Call)) for x in ast.walk(par.test)):
+                    in_body = any(x is cur for x in par.body)
+                    rows_ = [v_ for v_ in names_ if v_ in env]
+                    for val_ in (1, 2):
+                        loc = dict((k_, val_) for k_ in names_)
+                        try:
+                            tv = bool(eval(compile(ast.Expression(body=par.test), '<t>', 'eval'), {'__builtins__': {}}, loc))
+                        except Exception:          # noqa
+                            tv = in_body
+                        if tv != in_body:
+                            ok_g, why_g = False, '`%s` keeps the operation out when %s' % (U(par.test), ', '.join('%s = %d' % (k_, val_) for k_ in sorted(names_)))
+            cur = par
+        if not ok_g:
+            chk.violated('gj-row-operations', 'gj_solve@%d:index-guard' % st.lineno, node=st, file=LA, func='gj_solve',
+                         detail='%s: a pivot row is left out of the sweep, the rows above it keep their entries in that column' % why_g)
+    # declare('<type>', k) hands back k values: unpacked into exactly k names
+    for fdef in [f for f in ast.walk(M.py(LA)) if isinstance(f, ast.FunctionDef)]:
+        for a_ in ast.walk(fdef):
+            if isinstance(a_, ast.Assign) and isinstance(a_.value, ast.Call) and M.call_name(a_.value) == 'declare' and len(a_.value.args) == 2 and isinstance(a_.value.args[1], ast.Constant):
+                nt_ = len(a_.targets[0].elts) if isinstance(a_.targets[0], ast.Tuple) else 1
+                if nt_ != a_.value.args[1].value:
+                    chk.violated('helper-signature', '%s:declare@%d' % (fdef.name, a_.lineno), node=a_, file=LA, func=fdef.name,
+                                 detail='`%s` unpacks %d declared values into %d names: the pure-Python call raises, the transpiled one declares the wrong variables' % (U(a_)[:60], a_.value.args[1].value, nt_))
+
+
 def rule_backsub_pivot(chk):
     """back substitution: a row is left alone (no division) only when its pivot is exactly zero - any other pivot, however small, belongs to a
     regular system and is divided by (the forward sweep never screens the last pivot)"""
@@ -997,6 +1285,7 @@ def main(chk):
     rule_returns(chk)
     rule_eigen_wrapper(chk)
     rule_backsub_pivot(chk)
+    rule_row_operations(chk)
     rule_hypot(chk)
     rule_tred2_scaling(chk)
     rule_tred2_sign(chk)
